@@ -83,8 +83,10 @@ def cases(tier, seed, shard, nshards):
         tps = 10
         ticks = 2500
         arrivals = {}
-        for j in range(1100):
-            arrivals.setdefault(str(rng.randrange(0, 2300)), []).append(
+        for j in range(1500):
+            # one arrival in every tick: every call carries a new pipeline (whatever happens "in the call after
+            # the N-th completion" then always meets fresh work)
+            arrivals.setdefault(str(j), []).append(
                 gen.simple_pipeline(rng, f"L{j}", tps, nops=rng.choice([1, 2, 3]), mode="safe", cpus_hint=1, mem_ref=0.3, maxn=3))
         yield {"kind": "rest", "policy": rng.choice(["random", "pack"]), "policy_seed": rng.getrandbits(32),
                "params": {"duration": ticks / tps, "ticks_per_second": tps, "num_pools": 2, "cpus_per_pool": 8, "ram_gb_per_pool": 32,
